@@ -23,10 +23,18 @@ def run(c):
     c.assumptions += [
         "the configured normalisation functions (authz.NormalizeFuncs) and net/mail's address parser are parameters of the model; "
         "their results are shipped per case; the monitor judges the real decisions against the structure the header bytes were rendered from",
+        "table.file reloads a file only when its time stamp is not older than the one loaded last and the last change is at least half a "
+        "reload interval ago: the harness gives every edit a newer stamp that lies years in the past (no dependence on the clock); "
+        "the file-history model covers well-formed files, an unparsable file and a missing file",
     ]
     return c.finish(
-        rule="random configurations (7x7 normalisation settings, reject/quarantine/ignore actions, identity / single / static / failing / "
-        "email_localpart(_optional) tables for user_to_email and prepare_email with address, domain and '*' entries in normalised or variant "
+        rule="every check instance is built through the real configuration path (block written as text with directives that have their "
+        "default left out in every combination and the others in any order -> configuration parser -> config.Map -> Init), twice per case "
+        "(16 times on replay), the instances must decide alike; histories of a user_to_email table kept in a file (real table.file: entries "
+        "added / moved / removed, file emptied / comments only / deleted / recreated / damaged, reloads through the reload hook) with the "
+        "table content and the decisions after every reload compared with the model and, by the monitor, with the CURRENT file content; "
+        "random configurations (7x7 normalisation settings, reject/quarantine/ignore actions, identity / single / static / failing / "
+        "email_localpart(_optional) / file tables for user_to_email and prepare_email with address, domain and '*' entries in normalised or variant "
         "spelling and entries that name nothing: empty string, bare local part, half an address) x connection state (local, "
         "unauthenticated, user name spelling variants) x messages rendered from a structure: MAIL FROM (also without a domain: null sender, bare "
         "postmaster, bare local part, halves) and 0-3 From / 0-2 Sender fields with "
